@@ -191,6 +191,39 @@ func (p c18) Run(c *core.Ctx, idx int) {
 		dp.DropEmptyLists(model)
 	}
 	c.Count("store_" + storeName)
+	if storeKind > 0 && idx%3 == 1 {
+		// the Go values start out empty and the library itself builds them: every container, list and entry is one it created
+		// for an insert (a list it creates for a compound key must keep entries apart that share a part of the key)
+		g := dp.NewGoStore(r, s, gm, nil)
+		target = &c18go{g}
+		var lerr error
+		c.Eval()
+		if c.Guard("load into empty store", func() { lerr = g.Browser().Root().UpsertFrom(dp.NewStore(s, model.Clone()).Node()) }) {
+			return
+		}
+		snap, snapErr := g.Snapshot()
+		wit := func() string {
+			after := "<unreadable>"
+			if snap != nil {
+				after = snap.Dump(s)
+			}
+			return fmt.Sprintf("store: %s %s\nschema:\n%sloaded:\n%s\nstore after:\n%s", storeName, target.Describe(), s.Yang(), model.Dump(s), after)
+		}
+		switch {
+		case lerr != nil:
+			c.Violate("error/load-empty"+storeSig(storeName), "UpsertFrom of the whole tree into empty Go values returned %v\n%s", lerr, wit())
+			return
+		case snapErr != nil:
+			c.Violate("store-corrupt/load-empty/"+storeName, "the Go values the library built do not denote a tree of the schema: %v\n%s", snapErr, wit())
+			return
+		}
+		if d := dp.Diff(s, model, snap, cmp); d != "" {
+			c.Violate("result/load-empty/"+diffClass(d)+storeSig(storeName), "the Go values the library built differ from what was inserted:\n%s\n%s", d, wit())
+			return
+		}
+		c.Shape("load-empty/%s", storeName)
+		c.Count("op_load_empty")
+	}
 	nops := 3 + r.Intn(13)
 	var history []string
 	var lastDeleted *dp.DNode
